@@ -143,6 +143,13 @@ Proof.
   destruct p as [saw out]. cbn [calls_ok]. unfold plain. rewrite ES, EF, IH. reflexivity.
 Qed.
 
+Lemma lower_ok_ext k1 k2 : k_forward k1 = k_forward k2 -> k_partial k1 = k_partial k2 ->
+  forall obs lower, lower_ok k1 obs lower = lower_ok k2 obs lower.
+Proof.
+  intros EF EP. induction obs as [|[saw out] r IH]; intros lower; destruct lower; try reflexivity.
+  cbn [lower_ok]. rewrite EF, EP, IH. reflexivity.
+Qed.
+
 (* THE TRANSFER THEOREM *)
 Theorem agree_implies_holds k :
   wf_func (k_f k) -> k_steps k <> [] -> steps_nonzero (k_steps k) ->
@@ -157,7 +164,7 @@ Proof.
   repeat match goal with H : _ && _ = true |- _ => apply andb_true_iff in H as [? ?] end.
   pose proof (model_holds (k_f k) (k_steps k) (k_forward k) (k_partial k) (k_calls k) WF NE NZ NDc PL PA) as MH.
   unfold holds, model_case in MH. unfold holds.
-  cbn [k_f k_fsig k_fasync k_calls k_direct k_steps k_forward k_partial k_levels k_fail k_top_calls k_fsig_after k_fdict_after k_again] in MH.
+  cbn [k_f k_fsig k_fasync k_calls k_direct k_steps k_forward k_partial k_levels k_fail k_top_calls k_lower_saws k_fsig_after k_fdict_after k_again] in MH.
   rewrite RS in MH. cbn [fst snd] in MH.
   rewrite (sig_of_func_sig _ (wf_len _ WF)) in *.
   repeat match goal with
@@ -179,10 +186,14 @@ Proof.
     rewrite (levels_ok_agree (k_f k) (f_async (k_f k)) (k_steps k) (func_sig (k_f k)) (f_id (k_f k)) gs (k_levels k) e H) end.
   rewrite dict_equiv_refl in MH.
   destruct e as [ex|].
-  - destruct (k_top_calls k); [exact MH | discriminate].
-  - match goal with H : list_eqb call_obs_eqb _ _ = true |- _ => apply (proj1 (list_eqb_eq _ call_obs_eqb_eq _ _)) in H; rewrite <- H end.
+  - destruct (k_top_calls k); [|discriminate]. destruct (k_lower_saws k); [exact MH | discriminate].
+  - match goal with H : list_eqb call_obs_eqb _ _ && _ = true |- _ => apply andb_true_iff in H as [? ?] end.
+    match goal with H : list_eqb call_obs_eqb _ _ = true |- _ => apply (proj1 (list_eqb_eq _ call_obs_eqb_eq _ _)) in H; rewrite <- H end.
+    match goal with H : list_eqb (list_eqb call_eqb) _ _ = true |- _ =>
+      apply (proj1 (list_eqb_eq _ (list_eqb_eq _ call_eqb_eq) _ _)) in H; rewrite <- H end.
     destruct (levels_ok (k_f k) (f_async (k_f k)) (func_sig (k_f k)) (f_id (k_f k)) (k_steps k) (map obs_of_built gs) None) as [top|];
       [|exact MH].
-    match type of MH with context [calls_ok ?k' _ _ _ _] => rewrite (calls_ok_ext k k' top eq_refl eq_refl) end.
+    match type of MH with context [calls_ok ?k' _ _ _ _] =>
+      rewrite (calls_ok_ext k k' top eq_refl eq_refl), (lower_ok_ext k k' eq_refl eq_refl) end.
     exact MH.
 Qed.
